@@ -8,8 +8,12 @@ C06 on the generated schema and the real converters.
                               `EntityFree` on every caller-supplied text.
 * `C06_compose_full(_false)`— without the guard the statement is false: password `&amp;` is sent as `&`
                               (`String.convert` unescapes at construction) — known finding string-entity-unescaped.
-* `C06_tax_generated`       — the tax request (finding tax1099-acctnum-dropped is fixed in /repo; `tax_witness` replays its
-                              witness `acctnum="777"`, which now satisfies the whole tax spec).
+* `C06_tax_generated`       — the tax request (finding tax1099-acctnum-dropped is fixed in /repo; its witness is replayed
+                              in the witness module Gen/ComposeW.lean).
+* `C06_wire_closed`, `C06_wire_closed_accounts/_profile/_tax` — the composed request, written by `serialize` and read
+                              back, is the composed instance (`RoundTrip` discharged from `C01_generated_closed`).
+Nothing here refers to a class by its position in the generated table: classes are looked up by name
+(`findIdx?`), class-specific kernel evaluations live in Gen/ComposeW.lean.
 -/
 import OfxProofs.Props.C06
 import OfxProofs.Lemmas.Str
@@ -105,15 +109,6 @@ theorem C06_tax_generated (cfg : Cfg) (password : Str) (taxyears : List Str) (ac
   C06_tax schema_reqWF schema_taxWF conv_ok conv_year cfg password taxyears acctnum recid uuidStream dtclient htexts
     hpw hacct hrec hyears hu hne h
 
-/-- the witness of the former finding `tax1099_acctnum_dropped`, now passing:
-    `request_tax1099("pw", "2019", acctnum="777")` composes and satisfies the whole tax spec (ACCTNUM 777 placed) -/
-theorem tax_witness :
-    (match requestTax Ofx.Generated.schema Types.conv wCfg "pw".toList ["2019".toList] (some "777".toList) none
-        wUuid wDt with
-      | .ok root => decide (checkTax Ofx.Generated.schema wCfg "pw".toList wDt ["2019".toList] (some "777".toList)
-          none 203 root = [])
-      | .error _ => false) = true := by decide +kernel
-
 /-! ### the wire: the composed request, written and read back -/
 
 theorem schema_wireWF : WireWF Ofx.Generated.schema = true := by decide +kernel
@@ -183,28 +178,118 @@ theorem C06_wire_closed (cfg : Cfg) (password : Str) (reqs : List Req) (uuidStre
   exact C06_compose_generated cfg password reqs uuidStream dtclient (fun s hs => (htexts s hs).1) hpw.1
     (fun r hr s hs => (hreqs r hr s hs).1) huuid hne (fun i => (huP i).1) h
 
-/-- the guards of `C06_wire_closed` are satisfiable: the witness configuration, a password, a UTC instant, the uuid
-    stream, and a request list for which composition succeeds -/
-example : (∀ s ∈ wCfg.texts, WireText s) ∧ WireText "pass".toList ∧ Ofx.DateTime.dtUtcMs wDt ∧
-    (∀ i, WireText (wUuid i)) ∧ Ofx.Header.UidOk genEnv.p1.newLen (some (wUuid 1)) ∧
-    (requestStatements Ofx.Generated.schema Types.conv wCfg "pass".toList
-      [.ccStmt (some "123".toList) (some wDt) none (some true)] wUuid wDt).toBool = true := by
-  refine ⟨by decide +kernel, by decide +kernel, ?_, ?_, ?_, by decide +kernel⟩
-  · refine ⟨by decide +kernel, rfl, by decide +kernel, by decide +kernel, by decide +kernel⟩
-  · intro i
-    refine ⟨unescape_no_amp _ (by simp [wUuid, List.mem_replicate]), ?_⟩
-    simp only [Spec.Wire.trimmedB, wUuid, List.replicate_succ, List.head?_cons]
-    have : (List.replicate i 'u' ++ ['u']).getLast? = some 'u' := by simp
-    rw [show 'u' :: List.replicate i 'u' = List.replicate i 'u' ++ ['u'] from by
-      rw [← List.replicate_succ, List.replicate_succ']]
-    rw [this]
-    decide
-  · refine ⟨⟨by simp [wUuid], ?_⟩, ?_⟩
-    · intro c hc
-      simp only [wUuid, List.mem_replicate] at hc
-      rw [hc.2]; decide
-    intro n hn
-    have : genEnv.p1.newLen = some 36 := by decide +kernel
-    rw [this] at hn; injection hn with hn; subst hn; decide
+/-! ### the other three requests on the wire -/
+
+theorem schema_taxMsgsVal : taxMsgsValB Ofx.Generated.schema = true := by decide +kernel
+
+theorem schema_taxRqVal : taxRqValB Ofx.Generated.schema = true := by decide +kernel
+
+/-- the premises of `construct_valid_any` for `TAX1099RQ`, found by name -/
+theorem gen_taxAny : ∀ ci c, Ofx.Generated.schema.findIdx? "TAX1099RQ".toList = some ci →
+    Ofx.Generated.schema.cls? ci = some c →
+    Ofx.Agg.ClsAny Ofx.Generated.schema c ci ∧ c.extra = .none ∧ c.optMutex = [] ∧ c.reqMutex = [] := by
+  intro ci c hi hc
+  have hmem : c ∈ Ofx.Generated.schema.classes := List.mem_of_getElem? hc
+  have hname := findIdx_name hi hc
+  obtain ⟨habs, hx⟩ := taxRqVal_of schema_taxRqVal hi hc
+  exact ⟨⟨hc, habs, by rw [hname]; exact hi, schema_clsWF c hmem (by rw [hname]; decide), gen_groomOk c hmem⟩, hx⟩
+
+/-- what the three wire theorems below share: a `Valid` root written by `serialize` and read back -/
+theorem wire_of_valid (cfg : Cfg) (new : Str) (hclose : cfg.closeElements = true)
+    (hn1 : Ofx.Header.UidOk genEnv.p1.newLen (some new)) (hn2 : Ofx.Header.UidOk genEnv.p2.newLen (some new))
+    {root : Node}
+    (hv : Ofx.Agg.Valid genEnv.S genEnv.cv Ofx.escapeCdata (Ofx.Types.typesDomWire genEnv.S.enums) root)
+    {v : Nat} {hdr : Ofx.Header.Hdr}
+    (hmk : Ofx.Header.makeHeader genEnv.p1 genEnv.p2 (.int (v : Nat)) none none (some new) = .ok hdr) :
+    ∃ file, Ofx.Pipeline.writeFile genEnv v none (some new) cfg.prettyprint cfg.closeElements root = .ok file ∧
+      Ofx.Pipeline.readFile genEnv file = .ok (hdr, root) ∧ hdrVersion hdr = Int.ofNat v := by
+  obtain ⟨file, hw, hr⟩ := C01_generated_closed v none (some new) uid1o hn1 uid2o hn2 cfg.prettyprint root hv hdr hmk
+  exact ⟨file, by rw [hclose]; exact hw, hr, makeHeader_version _ _ _ _ _ _ _ hmk⟩
+
+/-- **C06_wire_closed, account-info request** — `request_accounts(password, dtacctup, dryrun=True)`: the file is read
+    back to the header written (version `cfg.version`, NEWFILEUID the second uuid) and exactly the composed instance,
+    which satisfies the account-info spec.  Same guards as `C06_wire_closed`. -/
+theorem C06_wire_closed_accounts (cfg : Cfg) (password : Str) (dtacctup : Option DT) (uuidStream : Nat → Str)
+    (dtclient : DT) (hclose : cfg.closeElements = true)
+    (htexts : ∀ s ∈ cfg.texts, WireText s) (hpw : WireText password)
+    (hd : ∀ d, dtacctup = some d → Ofx.DateTime.dtUtcMs d) (hdt : Ofx.DateTime.dtUtcMs dtclient)
+    (hu : WireText (uuidStream 0)) (hne : uuidStream 0 ≠ [])
+    (hn1 : Ofx.Header.UidOk genEnv.p1.newLen (some (uuidStream 1)))
+    (hn2 : Ofx.Header.UidOk genEnv.p2.newLen (some (uuidStream 1))) {root : Node}
+    (h : requestAccounts Ofx.Generated.schema Types.conv cfg password dtacctup uuidStream dtclient = .ok root)
+    {hdr : Ofx.Header.Hdr}
+    (hmk : Ofx.Header.makeHeader genEnv.p1 genEnv.p2 (.int (cfg.version : Nat)) none none (some (uuidStream 1))
+      = .ok hdr) :
+    ∃ file, Ofx.Pipeline.writeFile genEnv cfg.version none (some (uuidStream 1)) cfg.prettyprint cfg.closeElements
+        root = .ok file ∧
+      Ofx.Pipeline.readFile genEnv file = .ok (hdr, root) ∧ hdrVersion hdr = Int.ofNat cfg.version ∧
+      checkAccounts Ofx.Generated.schema cfg password dtclient dtacctup (hdrVersion hdr) root = [] := by
+  have hv : Ofx.Agg.Valid genEnv.S genEnv.cv Ofx.escapeCdata (Ofx.Types.typesDomWire genEnv.S.enums) root :=
+    requestAccounts_valid schema_reqWF schema_wireWF conv_ok_wire (types_convInto _ schema_enumsPlain)
+      (Ofx.Types.typesConv_laws_wire _) cfg password dtacctup uuidStream dtclient htexts hpw hd hdt hu h
+  obtain ⟨file, hw, hr, hver⟩ := wire_of_valid cfg _ hclose hn1 hn2 hv hmk
+  refine ⟨file, hw, hr, hver, ?_⟩
+  rw [hver]
+  exact C06_accounts_generated cfg password dtacctup uuidStream dtclient (fun s hs => (htexts s hs).1) hpw.1 hu.1
+    hne h
+
+/-- **C06_wire_closed, profile request** — `_request_profile(dtprofup, dryrun=True)` (no per-call overrides).
+    New guard, explicit: the DTPROFUP actually sent (the given one, else 1990-01-01 UTC) is `dtUtcMs` -/
+theorem C06_wire_closed_profile (cfg : Cfg) (dtprofup : Option DT) (uuidStream : Nat → Str)
+    (dtclient : DT) (hclose : cfg.closeElements = true)
+    (htexts : ∀ s ∈ cfg.texts, WireText s)
+    (hd : Ofx.DateTime.dtUtcMs (orDefault dtprofup defaultDtprofup)) (hdt : Ofx.DateTime.dtUtcMs dtclient)
+    (hu : WireText (uuidStream 0)) (hne : uuidStream 0 ≠ [])
+    (hn1 : Ofx.Header.UidOk genEnv.p1.newLen (some (uuidStream 1)))
+    (hn2 : Ofx.Header.UidOk genEnv.p2.newLen (some (uuidStream 1))) {root : Node}
+    (h : requestProfile Ofx.Generated.schema Types.conv cfg dtprofup uuidStream dtclient = .ok root)
+    {hdr : Ofx.Header.Hdr}
+    (hmk : Ofx.Header.makeHeader genEnv.p1 genEnv.p2 (.int (cfg.version : Nat)) none none (some (uuidStream 1))
+      = .ok hdr) :
+    ∃ file, Ofx.Pipeline.writeFile genEnv cfg.version none (some (uuidStream 1)) cfg.prettyprint cfg.closeElements
+        root = .ok file ∧
+      Ofx.Pipeline.readFile genEnv file = .ok (hdr, root) ∧ hdrVersion hdr = Int.ofNat cfg.version ∧
+      checkProfile Ofx.Generated.schema cfg dtclient dtprofup none (hdrVersion hdr) root = [] := by
+  have hv : Ofx.Agg.Valid genEnv.S genEnv.cv Ofx.escapeCdata (Ofx.Types.typesDomWire genEnv.S.enums) root :=
+    requestProfile_valid schema_reqWF schema_wireWF conv_ok_wire (types_convInto _ schema_enumsPlain)
+      (Ofx.Types.typesConv_laws_wire _) cfg dtprofup uuidStream dtclient htexts (by decide +kernel)
+      (by decide +kernel) hd hdt hu h
+  obtain ⟨file, hw, hr, hver⟩ := wire_of_valid cfg _ hclose hn1 hn2 hv hmk
+  refine ⟨file, hw, hr, hver, ?_⟩
+  rw [hver]
+  exact C06_profile_generated cfg dtprofup uuidStream dtclient (fun s hs => (htexts s hs).1) hu.1 hne h
+
+/-- the default DTPROFUP is a wire date, so the guard of `C06_wire_closed_profile` only concerns a date that is given -/
+theorem defaultDtprofup_wire : Ofx.DateTime.dtUtcMs defaultDtprofup :=
+  ⟨by decide +kernel, rfl, by decide +kernel, by decide +kernel, by decide +kernel⟩
+
+/-- **C06_wire_closed, tax request** — `request_tax1099(password, *taxyears, acctnum=…, recid=…, dryrun=True)`;
+    `TAX1099RQ` (an `ElementList`) is covered through `construct_valid_any`.  Guards as before plus: the account
+    number and record id are `WireText`, the tax years are canonical decimal texts -/
+theorem C06_wire_closed_tax (cfg : Cfg) (password : Str) (taxyears : List Str) (acctnum recid : Option Str)
+    (uuidStream : Nat → Str) (dtclient : DT) (hclose : cfg.closeElements = true)
+    (htexts : ∀ s ∈ cfg.texts, WireText s) (hpw : WireText password)
+    (hacct : ∀ s, acctnum = some s → WireText s) (hrec : ∀ s, recid = some s → WireText s)
+    (hyears : ∀ y ∈ taxyears, ∃ j : Int, y = pyStrInt j) (hdt : Ofx.DateTime.dtUtcMs dtclient)
+    (hu : WireText (uuidStream 0)) (hne : uuidStream 0 ≠ [])
+    (hn1 : Ofx.Header.UidOk genEnv.p1.newLen (some (uuidStream 1)))
+    (hn2 : Ofx.Header.UidOk genEnv.p2.newLen (some (uuidStream 1))) {root : Node}
+    (h : requestTax Ofx.Generated.schema Types.conv cfg password taxyears acctnum recid uuidStream dtclient
+      = .ok root) {hdr : Ofx.Header.Hdr}
+    (hmk : Ofx.Header.makeHeader genEnv.p1 genEnv.p2 (.int (cfg.version : Nat)) none none (some (uuidStream 1))
+      = .ok hdr) :
+    ∃ file, Ofx.Pipeline.writeFile genEnv cfg.version none (some (uuidStream 1)) cfg.prettyprint cfg.closeElements
+        root = .ok file ∧
+      Ofx.Pipeline.readFile genEnv file = .ok (hdr, root) ∧ hdrVersion hdr = Int.ofNat cfg.version ∧
+      checkTax Ofx.Generated.schema cfg password dtclient taxyears acctnum recid (hdrVersion hdr) root = [] := by
+  have hv : Ofx.Agg.Valid genEnv.S genEnv.cv Ofx.escapeCdata (Ofx.Types.typesDomWire genEnv.S.enums) root :=
+    requestTax_valid schema_reqWF schema_wireWF schema_taxWF schema_taxMsgsVal gen_taxAny conv_ok_wire
+      (types_convInto _ schema_enumsPlain) (Ofx.Types.typesConv_laws_wire _) conv_year (conv_yearDom _)
+      cfg password taxyears acctnum recid uuidStream dtclient htexts hpw hacct hrec hyears hdt hu h
+  obtain ⟨file, hw, hr, hver⟩ := wire_of_valid cfg _ hclose hn1 hn2 hv hmk
+  refine ⟨file, hw, hr, hver, ?_⟩
+  rw [hver]
+  exact C06_tax_generated cfg password taxyears acctnum recid uuidStream dtclient (fun s hs => (htexts s hs).1) hpw.1
+    (fun s hs => (hacct s hs).1) (fun s hs => (hrec s hs).1) hyears hu.1 hne h
 
 end Ofx.Gen
